@@ -57,6 +57,8 @@ def run(ctx):
     sysm = sysm + [r for _, r in pairwise(types=["array"])]
     n = 20 if ctx.tier == "quick" else 300
     cases = build_cases(ctx, len(sysm) + n, ["array"], CLASSES | {"type"}, "c07x", extra_schemas=sysm, docs_per=2 if ctx.tier == "quick" else 4)
+    from vlib.overlay import overlay_cases
+    cases = cases + overlay_cases("items", "c07")
     run_cases(ctx, cases, "c07")
     evaluate(ctx, cases, CLASSES, {"items": "invalid", "items-valid": "valid", "optional-absent": "by-spec", "null-allowed": "valid", "valid": "valid"},
              "array limits")
